@@ -19,6 +19,7 @@ import (
 	channeltypesv2 "github.com/cosmos/ibc-go/v11/modules/core/04-channel/v2/types"
 	host "github.com/cosmos/ibc-go/v11/modules/core/24-host"
 	hostv2 "github.com/cosmos/ibc-go/v11/modules/core/24-host/v2"
+	"github.com/cosmos/ibc-go/v11/modules/core/exported"
 	ibctesting "github.com/cosmos/ibc-go/v11/testing"
 	ibcmock "github.com/cosmos/ibc-go/v11/testing/mock"
 	mockv2 "github.com/cosmos/ibc-go/v11/testing/mock/v2"
@@ -186,8 +187,31 @@ func NewSim(c *kit.Check, r *kit.Rng, o SimOpts) *Sim {
 		// order and identity of app acknowledgements in a multi-payload packet is observable
 		ch.Sim.MockModuleV2A.IBCApp.OnRecvPacket = distinctAckApp("aa-app-A")
 		ch.Sim.MockModuleV2B.IBCApp.OnRecvPacket = distinctAckApp("zz-app-B")
+		// the v1 mock application answers every third packet with an acknowledgement in its own format (raw bytes instead of
+		// the standard JSON envelope), which ICS-04 allows
+		ch.Sim.IBCMockModule.IBCApp.OnRecvPacket = rawAckApp
 	}
 	return s
+}
+
+// rawAck is a successful acknowledgement in an application-specific encoding.
+type rawAck struct{ bz []byte }
+
+func (a rawAck) Success() bool           { return true }
+func (a rawAck) Acknowledgement() []byte { return a.bz }
+
+func rawAckApp(ctx sdk.Context, channelVersion string, packet channeltypes.Packet, relayer sdk.AccAddress) exported.Acknowledgement {
+	ctx.EventManager().EmitEvent(ibcmock.NewMockRecvPacketEvent())
+	switch {
+	case bytes.Equal(ibcmock.MockPacketData, packet.GetData()):
+		if packet.Sequence%3 == 2 {
+			return rawAck{[]byte(fmt.Sprintf("raw-ack\x00\xff/%s/%d", packet.DestinationChannel, packet.Sequence))}
+		}
+		return ibcmock.MockAcknowledgement
+	case bytes.Equal(ibcmock.MockAsyncPacketData, packet.GetData()):
+		return nil
+	}
+	return ibcmock.MockFailAcknowledgement
 }
 
 func distinctAckApp(tag string) func(ctx sdk.Context, src, dst string, seq uint64, payload channeltypesv2.Payload, relayer sdk.AccAddress) channeltypesv2.RecvPacketResult {
